@@ -4273,15 +4273,21 @@ class SchemaValidator:
             return ref
 
         ref_type = utils.parse_ref_type(ref)
+        is_alias_reference = bool(
+            re.match(patterns.global_alias_ref, utils.truncate_schema_id(ref))
+        )
         if to_alias:
-            if alias_attribute_name not in obj or utils.parse_ref_id(ref) == str(
-                obj[alias_attribute_name]
+            if alias_attribute_name not in obj or (
+                is_alias_reference
+                and utils.parse_ref_id(ref) == str(obj[alias_attribute_name])
             ):
                 return ref
 
             new_ref = utils.as_ref(obj[alias_attribute_name], ref_type)
         else:
-            if "id" not in obj or utils.parse_ref_id(ref) == str(obj["id"]):
+            if "id" not in obj or (
+                not is_alias_reference and utils.parse_ref_id(ref) == str(obj["id"])
+            ):
                 return ref
 
             new_ref = utils.as_ref(obj["id"], ref_type, value_is_id=True)
